@@ -32,7 +32,9 @@ RULE = ("Hypothesis draws a valid file (C01 generator) and optionally a fault: b
         ' The TdmsFile constructor is exercised in its argument combinations (read_metadata_only, keep_open) with '
         'close() and with-blocks; pathlib.Path sources are included.'
         ' A large-chunk job (63 KiB .. 2 MiB chunks, held chunks and index results, optional memmap_dir) judges '
-        'descriptors of the .tdms / .tdms_index files after close().')
+        'descriptors of the .tdms / .tdms_index files after close().'
+        ' Two files are alive at once: reading and closing the second must neither close nor leak descriptors of the '
+        'first.')
 ASSUMPTIONS = [
     "Linux /proc/self/fd accounting",
     "TdmsFile.open() itself raising is outside the statement (reported as a statistic)",
